@@ -128,7 +128,10 @@ def standin(tier, seed):
             for cutoff, cf in ((0.9, lambda i, j: 0.9), ([0.45] * 4, lambda i, j: 0.9)):
                 case = {"slab": True, "pbc": pbc, "axis": ax, "cutoff": str(cutoff)}
                 V.case(case)
-                lab = np.asarray(search_molecules(a, cutoff))
+                try:
+                    lab = np.asarray(search_molecules(a, cutoff))
+                except Exception as e:  # noqa: BLE001
+                    V.add("search:raises", case, repr(e)); continue
                 comp = uf_components(a, cf)
                 if any((lab[i] == lab[j]) != (comp[i] == comp[j]) for i in range(4) for j in range(4)):
                     V.add("search:partition", case, f"labels {lab.tolist()} components {comp}")
